@@ -262,7 +262,7 @@ def check_roa_limits(ctx, f):
     rows = [
         ("no-maxLength", lambda o: not has(o, r"\.max_length\)$", 1), lambda e: "accept" if e["p"] <= e["f"] else "reject",
          "without maxLength: accepted iff prefix length ≤ family maximum"),
-        ("with-maxLength", lambda o: not has(o, r"\.max_length\)$", None),
+        ("with-maxLength", lambda o: not has(o, r"\.max_length\)$", None) and not has(o, r"\.max_length\)$", 0),
          lambda e: "accept" if e["p"] <= e["f"] and e["p"] <= e["m"] <= e["f"] else "reject",
          "with maxLength m: accepted iff prefix length ≤ m ≤ family maximum"),
     ]
